@@ -1,4 +1,4 @@
 From Coq Require Import Extraction ExtrOcamlBasic ZArith List.
 From LP Require Import Num C02_Model.
 Extraction Language OCaml.
-Extraction "C02_m.ml" step loop find_root_h find_root find_root_seq Z.of_nat Z.to_nat.
+Extraction "C02_m.ml" step loop find_root_h find_root find_root_seq sign1 sign2 Z.of_nat Z.to_nat.
